@@ -142,7 +142,9 @@ Definition check (c : c11case) : N :=
         end
       else if corr then
         let k := known_class nd td prefix pfs in
-        if k =? 0 then 3 else 10 + k
+        if k =? 0 then 3
+        else if is_panic impl && negb (k =? 4) then 3   (* the only panic with a known class: colliding names *)
+        else 10 + k
       else 3
   end.
 
